@@ -213,6 +213,8 @@ def finish(pid, tier, seed, level, agg, t0, extra_cov=None, assumptions=None):
           "assumptions": assumptions or [props.HX_NOTE], "wall_s": round(time.time() - t0, 2), "violations": len(seen_sig)}
     validate_evidence(ev)
     write_json(os.path.join(EVIDENCE, "%s.json" % pid), ev)
+    # a per-tier copy is kept as well, so that a quick run does not erase what the last thorough run covered
+    write_json(os.path.join(EVIDENCE, tier, "%s.json" % pid), ev)
     for l in out_lines:
         print(l)
     print("%s %s: %s (%d states, %d transitions, %d evaluations, %.0fs)" % (pid, tier, "VIOLATED" if rc else "held on everything explored", agg["states"], agg["transitions"], cov["evaluations"], time.time() - t0))
